@@ -151,12 +151,23 @@ def stepPath (base : Path → Res Unit) (s : St) (p : Path) : Res Unit :=
 inductive Op where
   /-- `UpdateConfig { feature_toggle: Some f }` by `owner` (= the factory) or by somebody else -/
   | setFlags (byOwner : Bool) (f : Flags)
+  /-- a partial update: only the switches that are named change (the vault's `UpdateConfigParams`
+      carries three `Option<bool>`; for a pool the caller completes the `FeatureToggle` struct with
+      the current values) -/
+  | setPartial (byOwner : Bool) (a b c : Option Bool)
+  /-- an `UpdateConfig` that names no switch at all (it changes e.g. the fee collector address) -/
+  | touch (byOwner : Bool)
   | call (p : Path)
 deriving DecidableEq, Repr
 
 /-- The switch state after an operation; a call never writes the switches. -/
 def step (base : Path → Res Unit) (s : St) : Op → Res St
   | .setFlags byOwner f => if byOwner then .ok { s with flags := f } else .err
+  | .setPartial byOwner a b c =>
+    if byOwner then
+      .ok { s with flags := ⟨a.getD s.flags.a, b.getD s.flags.b, c.getD s.flags.c⟩ }
+    else .err
+  | .touch byOwner => if byOwner then .ok s else .err
   | .call p =>
     match stepPath base s p with
     | .ok () => .ok s
